@@ -18,7 +18,8 @@ RULE = (
     "8-value edge alphabets of the six fields (262 144, also through from_sp_header/from_composite_fields); every "
     "application-data string of length <= 2 (65 793) in Kp backgrounds; shaped data of lengths 0..17, 255..257, 1024, "
     "65528, 65529 (largest that fits) and 65530.. (must not be encoded). Each case runs construct/pack/unpack/re-pack/"
-    "space-packet view/CRC check against ref/pus.py. Rejection clause: for every declared total length 7..12 and every "
+    "compare against ref/pus.py; the generic space-packet view (original and decoded) and check_pus_crc run on every vector "
+    "in the thorough tier and on a covering subset in the quick tier (see bounds). Rejection clause: for every declared total length 7..12 and every "
     "APID x sequence-count alphabet x 5 continuations, a CRC-consistent octet string whose only fault is the declared "
     "length; for lengths 7 and 8 (trailer overlaps the version octet) additionally every sequence-control word that makes "
     "the trailer read as PUS-C (solved, not searched). Distinct non-trivial: a vector not produced by an earlier part of "
@@ -26,8 +27,11 @@ RULE = (
     "buffer counts only when its octet 6 carries version nibble 2 (otherwise any decoder refuses it for the version)."
 )
 BOUNDS = {
-    "quick": "K=4 backgrounds, Kp=2 payload backgrounds, reject: seq count in walk(14) (34 values), solved trailers ack in edge(4) x service in edge(8)",
-    "thorough": "K=8 backgrounds, Kp=4, reject: seq count in walk(14) U every 61st value (302 values), solved trailers ack in full(4) x service in walk(8)",
+    "quick": "K=4 backgrounds, Kp=2 payload backgrounds; space-packet view + check_pus_crc on: every value of the 8/11/4-bit "
+             "fields, walk(n) and every 17th value of the 14/16-bit fields, a strength-5 covering array of the edge product "
+             "(index sum = 0 mod 8: 32 768 vectors), payloads of length <= 1 and the 2-octet payloads with (b0+b1) mod 16 = 0, "
+             "all shaped lengths; reject: seq count in walk(14) (34 values), solved trailers ack in edge(4) x service in edge(8)",
+    "thorough": "K=8 backgrounds, Kp=4, space-packet view + check_pus_crc on every vector; reject: seq count in walk(14) U every 61st value (302 values), solved trailers ack in full(4) x service in walk(8)",
 }
 ASSUMPTIONS = [
     "ref/pus.py, ref/ccsds.py, ref/crc16.py transcribe ECSS-E-ST-70-41C / CCSDS 133.0-B-2 (bound to the repository's expected vectors by selftest/st_ref_pus.py)",
@@ -69,25 +73,31 @@ def shards(tier):
     items = []
     k = _k(tier)
     for axis, n in enumerate(BITS):
-        parts = {16: 8, 14: 2}.get(n, 1) * (2 if tier == "thorough" else 1)
+        parts = {16: 16, 14: 4}.get(n, 1) * (4 if tier == "thorough" else 1)
         for p in range(parts):
-            items.append({"kind": "sweep", "axis": axis, "lo": (1 << n) * p // parts, "hi": (1 << n) * (p + 1) // parts, "k": k})
+            items.append({"kind": "sweep", "axis": axis, "lo": (1 << n) * p // parts, "hi": (1 << n) * (p + 1) // parts, "k": k, "all_deep": tier == "thorough"})
     for i in range(8):
         for j in range(0, 8, 2):
-            items.append({"kind": "edge", "i": i, "j": [j, j + 1]})
+            items.append({"kind": "edge", "i": i, "j": [j, j + 1], "all_deep": tier == "thorough"})
     for bg in range(_kp(tier)):
-        for part in range(4):
-            items.append({"kind": "payload", "bg": bg, "part": part, "parts": 4})
+        parts = 4 if tier == "quick" else 16
+        for part in range(parts):
+            items.append({"kind": "payload", "bg": bg, "part": part, "parts": parts, "all_deep": tier == "thorough"})
     for bg in range(_kp(tier)):
         items.append({"kind": "lengths", "bg": bg})
     items.append({"kind": "oversize"})
-    for total in range(7, 13):
+    for total in range(12, 6, -1):  # simplest witness first: 12 octets, nothing overlapping
         for part in range(4):
             items.append({"kind": "reject", "total": total, "apid_lo": 512 * part, "apid_hi": 512 * (part + 1), "tier": tier})
     for total in (7, 8):
         for part in range(4):
             items.append({"kind": "reject-solved", "total": total, "apid_lo": 512 * part, "apid_hi": 512 * (part + 1), "tier": tier})
-    return items
+    # one shard of every kind first, so that the evidence samples (first six) show every kind of case
+    first, rest, seen = [], [], set()
+    for it in items:
+        (rest if it["kind"] in seen else first).append(it)
+        seen.add(it["kind"])
+    return first + rest
 
 
 # ------------------------------------------------------------------------ data specs
@@ -126,8 +136,11 @@ def observe(u):
             int(bool(u.sec_header_flag)), int(u.seq_flags), u.ccsds_version)
 
 
-def check_tc(rec: Rec, f, spec, nontrivial=True, routes=False):
-    """the fixed script of operations for one telecommand vector"""
+def check_tc(rec: Rec, f, spec, nontrivial=True, routes=False, deep=True):
+    """the fixed script of operations for one telecommand vector.  deep: also the generic
+    space-packet view (of the original and of the decoded packet) and check_pus_crc - these
+    three library calls build a crcmod table each (0.3 ms apiece, 85 % of a case), so the
+    quick tier runs them on a stated covering subset of the vectors, the thorough tier on all."""
     m = _tc()
     from spacepackets.ccsds.spacepacket import PacketType, SpacePacketHeader
     from spacepackets.ecss import check_pus_crc
@@ -135,10 +148,12 @@ def check_tc(rec: Rec, f, spec, nontrivial=True, routes=False):
     svc, sub, apid, cnt, src, ack = f
     data = data_of(spec)
     ref = RP.tc(svc, sub, apid, cnt, src, ack, data)
-    case = {"kind": "tc", "f": list(f), "data": list(spec), "routes": bool(routes)}
-    rec.case(nontrivial, ops=13 + (6 if routes else 0))
-    if len(ref) <= 24:
-        rec.sample({"telecommand": dict(zip(AXES, f)), "app_data": data.hex(), "expected_octets": ref.hex()})
+    case = {"kind": "tc", "f": list(f), "data": list(spec), "routes": bool(routes), "deep": bool(deep)}
+    rec.case(nontrivial, ops=10 + (3 if deep else 0) + (6 if routes else 0))
+    if deep:
+        rec.count("vectors_with_space_packet_view_and_check_pus_crc")
+    if len(ref) <= 24 and any(f):
+        rec.sample({"telecommand": dict(zip(AXES, f)), "app_data": data.hex(), "expected_octets": ref.hex()}, limit=1)
 
     def bad(kind, observed=None, expected=None):
         rec.violation("C02." + kind, case, observed, expected,
@@ -163,14 +178,15 @@ def check_tc(rec: Rec, f, spec, nontrivial=True, routes=False):
     again = bytes(tc.pack(recalc_crc=False))
     if again != ref:
         bad("encode/PusTc.pack(recalc_crc=False)-after-pack/octets/" + _region(again, ref), short(again), short(ref))
-    try:
-        view = bytes(tc.to_space_packet().pack())
-        if view != ref:
-            bad("view/PusTc.to_space_packet/octets/" + _region(view, ref), short(view), short(ref))
-    except Exception as e:
-        bad("view/PusTc.to_space_packet/exception/" + type(e).__name__, repr(e), None)
-    if check_pus_crc(ref) is not True:
-        bad("crc/check_pus_crc/valid-packet-rejected", False, True)
+    if deep:
+        try:
+            view = bytes(tc.to_space_packet().pack())
+            if view != ref:
+                bad("view/PusTc.to_space_packet/octets/" + _region(view, ref), short(view), short(ref))
+        except Exception as e:
+            bad("view/PusTc.to_space_packet/exception/" + type(e).__name__, repr(e), None)
+        if check_pus_crc(ref) is not True:
+            bad("crc/check_pus_crc/valid-packet-rejected", False, True)
     try:
         u = m.PusTc.unpack(ref)
     except Exception as e:
@@ -186,9 +202,10 @@ def check_tc(rec: Rec, f, spec, nontrivial=True, routes=False):
     re = bytes(u.pack())
     if re != ref:
         bad("inverse/unpack-then-pack/octets/" + _region(re, ref), short(re), short(ref))
-    view = bytes(u.to_space_packet().pack())
-    if view != ref:
-        bad("view/decoded.to_space_packet/octets/" + _region(view, ref), short(view), short(ref))
+    if deep:
+        view = bytes(u.to_space_packet().pack())
+        if view != ref:
+            bad("view/decoded.to_space_packet/octets/" + _region(view, ref), short(view), short(ref))
     rec.outcome("roundtrip-ok/len%d" % min(len(data), 18))
     if routes:
         try:
@@ -256,19 +273,23 @@ def run_shard(item):
     kind = item["kind"]
     if kind == "sweep":
         axis = item["axis"]
+        n = BITS[axis]
+        walk = set(D.walk(n))
         for k in range(item["k"]):
             bg = background(k)
             spec = ("hex", BG_DATA[k].hex())
             for v in range(item["lo"], item["hi"]):
                 f = bg[:axis] + (v,) + bg[axis + 1:]
-                check_tc(rec, f, spec, nontrivial=not (v == bg[axis] and axis > 0))
+                deep = item["all_deep"] or n <= 11 or v % 17 == 0 or v in walk
+                check_tc(rec, f, spec, nontrivial=not (v == bg[axis] and axis > 0), deep=deep)
         rec.count("sweep_values_" + AXES[axis], item["hi"] - item["lo"])
     elif kind == "edge":
         e = [D.edge(n) for n in BITS]
         n = 0
         for j in item["j"]:
-            for apid, cnt, src, ack in itertools.product(e[2], e[3], e[4], e[5]):
-                check_tc(rec, (e[0][item["i"]], e[1][j], apid, cnt, src, ack), ("hex", EDGE_DATA.hex()), routes=True)
+            for a, b, c, d in itertools.product(range(8), repeat=4):
+                deep = item["all_deep"] or (item["i"] + j + a + b + c + d) % 8 == 0
+                check_tc(rec, (e[0][item["i"]], e[1][j], e[2][a], e[3][b], e[4][c], e[5][d]), ("hex", EDGE_DATA.hex()), routes=True, deep=deep)
                 n += 1
         rec.count("edge_product_vectors", n)
     elif kind == "payload":
@@ -277,7 +298,8 @@ def run_shard(item):
         allb = D.all_bytes(2)
         lo, hi = len(allb) * item["part"] // item["parts"], len(allb) * (item["part"] + 1) // item["parts"]
         for d in allb[lo:hi]:
-            check_tc(rec, bg, ("hex", d.hex()), nontrivial=d != BG_DATA[k])
+            deep = item["all_deep"] or len(d) <= 1 or (d[0] + d[1]) % 16 == 0
+            check_tc(rec, bg, ("hex", d.hex()), nontrivial=d != BG_DATA[k], deep=deep)
         rec.count("payloads_len<=2", hi - lo)
     elif kind == "lengths":
         k = item["bg"]
@@ -302,8 +324,8 @@ def run_shard(item):
                     buf = pkt + t
                     check_reject(rec, buf, total, nontrivial=looks_pus_c(buf))
                 rec.count("reject_forged_packets")
-        rec.sample({"forged_total_len": total, "example": (RP.forge_declared_len(total, RP.TC, item["apid_lo"] + 1, 1, FILL) or b"").hex(),
-                    "continuations": [t.hex() for t in TAILS]})
+        rec.sample({"forged_packet_declaring_total_len": total, "octets": (RP.forge_declared_len(total, RP.TC, item["apid_lo"] + 1, 1, FILL) or b"").hex(),
+                    "followed_by_each_of": [t.hex() for t in TAILS], "expected": "PusTc.unpack raises"}, limit=1)
     elif kind == "reject-solved":
         total = item["total"]
         walk = set(reject_seqs(item["tier"]))
@@ -327,6 +349,8 @@ def run_shard(item):
                 for t in TAILS:
                     check_reject(rec, pkt + t, total, nontrivial=(w & 0x3FFF) not in walk)
                 rec.count("reject_solved_packets")
+                rec.sample({"forged_packet_declaring_total_len": total, "octets": pkt.hex(), "note": "sequence control word solved so that the trailer reads as PUS-C",
+                            "followed_by_each_of": [t.hex() for t in TAILS], "expected": "PusTc.unpack raises"}, limit=1)
     return rec.result()
 
 
@@ -334,7 +358,7 @@ def replay(case):
     rec = Rec(PROPERTY, "replay")
     case = unhex(case)
     if case["kind"] == "tc":
-        check_tc(rec, tuple(case["f"]), tuple(case["data"]), routes=case.get("routes", False))
+        check_tc(rec, tuple(case["f"]), tuple(case["data"]), routes=True, deep=True)
     elif case["kind"] == "oversize":
         check_oversize(rec, case["len"], case["idx"])
     elif case["kind"] == "reject":
